@@ -555,9 +555,9 @@ def table(pid, tier):
         ks = [1, 2, 10, 23] if q else list(range(33))
         insts = [api_mix(tier, k) for k in ks]
         inv = ["C13_NoDeadlock"]
-        T = dict(mc=[(i, inv, []) for i in insts], gen=[(i, 500 if q else 4000) for i in insts[:3 if q else 10]],
-                 free=[(api_mix(tier, k, free=True), 40 if q else 200) for k in ks],
-                 live=[(i, ["Live_ClientsDone", "Live_StopReturns"]) for i in (insts[1:3] if q else insts[:12])])
+        T = dict(mc=[(i, inv, []) for i in insts], gen=[(i, 500 if q else 2500) for i in insts[:3 if q else 8]],
+                 free=[(api_mix(tier, k, free=True), 40 if q else 100) for k in ks],
+                 live=[(i, ["Live_ClientsDone", "Live_StopReturns"]) for i in (insts[1:3] if q else insts[:6])])
     elif pid == "C14":
         insts = [iterator(tier, False), iterator(tier, True)]
         inv = ["C14_Stream", "C14_Detached", "C13_NoDeadlock"]
